@@ -204,6 +204,7 @@ func (s *Server) decide(transport string, conn int64, raw []byte) *action {
 	if d.Opt {
 		AddOpt(m, Key(strings.ToLower(qq.Name), qq.Qtype, qq.Qclass, s.Tag))
 	}
+	m.Compress = true // like a real server; matters for replies that only fit with name compression
 	b, err := m.Pack()
 	if err != nil {
 		ql.BadQuery = "pack: " + err.Error()
